@@ -1,4 +1,6 @@
 """C07: Prove*/Verify* glue around Groth16 (contract stubs): shape validation before indexing, witness = parameters, no proof on error, verify binds hash and system."""
+import os
+os.environ.setdefault('GOSYM_BIG', '264')      # big.Int model one byte wider than a word: values >= 2^256 (hash + k*2^256, wide representatives) exist
 from common import Run, main_guard
 import driver, stubs
 
@@ -52,7 +54,7 @@ def main():
                         'Verify accepts exactly representatives of the proof\'s own hash, only with the same system and mode.',
             trusted_base=['z3', 'go/ssa', 'engine/gosym + listed stubs (Groth16 contract)'],
             functions=['prover.(*ProvingSystem).ProveInsertion/ProveDeletion/VerifyInsertion/VerifyDeletion', 'prover.(*InsertionParameters).ValidateShape', 'prover.(*DeletionParameters).ValidateShape'],
-            bounds='depth,batch 0..%d; lengths 0..%d; all values' % (stubs.PARAMS['maxdim'], stubs.PARAMS['maxdim'] + 1))
+            bounds='depth,batch 0..%d; lengths 0..%d; all values below 2^264' % (stubs.PARAMS['maxdim'], stubs.PARAMS['maxdim'] + 1))
     main_guard(run, body)
 
 
